@@ -49,6 +49,27 @@ theorem op_inplace_fails_iff (c : Codec V) (f : V → Except Err V) (d : Bits) :
     (∃ e, (applyOpInplace c f d).res = .error e) ↔ ∃ e, applyOp c c f d = .error e := by
   sorry
 
+/-! ### scalar - Array -/
+
+/-- `k - A` = mapping `x ↦ k - x` (`g`) over the items when every result fits — outside the region `rsub_negation`
+    (some item whose negation does not fit the dtype).  `hcomp`: `(-x) + k = k - x` in Python.
+    Full statement (no `hreg`) fails on the pinned tree: see `rsub_negation_witness`. -/
+theorem rsub_map_partial (c : Codec V) (hu : c.mult = 1) (hL : 0 < c.L) (hwf : c.WF)
+    (fneg fadd : V → Except Err V) (g : V → V) (d : Bits)
+    (hreg : rsub_negation c fneg d = false)
+    (hcomp : ∀ v ∈ items c d, ∀ n, fneg v = .ok n → fadd n = .ok (g v))
+    (hfit : ∀ v ∈ items c d, fits c (g v) = true) :
+    ∃ r, rsub c fneg fadd d = .ok r ∧ items c r = (items c d).map g ∧ trailing c.w r = [] := by
+  sorry
+
+/-- Known finding `rsub-negation`: `5 - Array('uint3', [1])` raises although `5 - 1 = 4` fits. -/
+theorem rsub_negation_witness :
+    let c := mkCodec .u "uint" 3 1 .int false
+    rsub_negation c (pyUn "neg") [false, false, true] = true ∧
+    rsub c (pyUn "neg") (scalarFn "add" (.int 5) false) [false, false, true] = .error .value ∧
+    applyOp c c (scalarFn "sub" (.int 5) true) [false, false, true] = .ok [true, false, false] := by
+  decide
+
 /-! ### bit-wise operators with a Bits value -/
 
 /-- In place: every item's bits are combined with the value, the trailing bits stay. -/
@@ -83,6 +104,24 @@ theorem between_length_mismatch (c1 c2 cr : Codec V) (hu1 : c1.mult = 1) (hu2 : 
     (f : V → V → Except Err V) (d1 d2 : Bits) (hlen : (items c1 d1).length ≠ (items c2 d2).length) :
     betweenArrays c1 c2 cr f d1 d2 = .error .value := by
   sorry
+
+/-- `==` / `!=` between Arrays is the element-wise comparison into `bool` — for operands of the same dtype
+    (outside the region `eq_ne_arrays_mixed_dtype`). -/
+theorem eqNe_arrays_partial (c cb c2 : Codec V) (f : V → V → Except Err V) (d d2 : Bits)
+    (hreg : eq_ne_arrays_mixed_dtype c c2 = false) :
+    eqNeArrays c cb f d c2 d2 = betweenArrays c c cb f d d2 := by
+  sorry
+
+/-- Known finding `eq-ne-mixed-dtype`: `Array('int3', [1]) == Array('uint3', [1])` raises TypeError (doc/array.rst shows
+    `a == b` for `'u8'` and `'i8'` Arrays giving an Array of bools), while `<` between the same operands works. -/
+theorem eq_ne_arrays_mixed_dtype_witness :
+    let c := mkCodec .i "int" 3 1 .int true
+    let c2 := mkCodec .u "uint" 3 1 .int false
+    eq_ne_arrays_mixed_dtype c c2 = true ∧
+    eqNeArrays c boolCodec (pyBinV "eq") [false, false, true] c2 [false, false, true] = .error .type ∧
+    betweenArrays c c2 boolCodec (pyBinV "eq") [false, false, true] [false, false, true] = .ok [true] ∧
+    betweenArrays c c2 boolCodec (pyBinV "lt") [false, false, true] [false, false, true] = .ok [false] := by
+  decide
 
 /-! ### type promotion: the code of `_promotetype` against the documented rules -/
 
